@@ -373,3 +373,117 @@ def engCmpScalar (s : St) (op : String) (tc : List String) (t : Dense) (sc : Sca
         pure ⟨s, reuseOut r, retOf r⟩
 
 end TM
+
+namespace TM
+
+/-- unary operations: (type class admitted by `unaryCheck`, element types with a kernel arm) -/
+def unaryClasses : List (String × List String × List String) :=
+  let realK := ["i", "i8", "i16", "i32", "i64", "f32", "f64"]
+  [ ("neg", numberTypes, numberTypes), ("inv", numberTypes, numberTypes), ("square", numberTypes, numberTypes),
+    ("cube", numberTypes, numberTypes), ("exp", floatcmplxTypes, floatcmplxTypes), ("tanh", floatcmplxTypes, floatcmplxTypes),
+    ("log", floatcmplxTypes, floatcmplxTypes), ("log2", floatTypes, floatTypes), ("log10", floatcmplxTypes, floatcmplxTypes),
+    ("sqrt", floatcmplxTypes, floatcmplxTypes), ("cbrt", floatTypes, floatTypes), ("invsqrt", floatTypes, floatTypes),
+    ("abs", signedTypes, realK), ("sign", signedTypes, realK),
+    ("clamp", nonComplexNumberTypes, nonComplexNumberTypes) ]
+
+abbrev UnF := Val → Val
+
+/-- `E.<Op>(t, a)`: `for i := range a { a[i] = g a[i] }` -/
+def kUn (s : St) (a : Win) (g : UnF) : Res St :=
+  (rangeI a.len).foldlM (fun s i => do s.wr a a.len i (g (← s.rd a a.len i))) s
+
+/-- `E.<Op>Iter(t, a, ait)` -/
+def kUnIter (s : St) (a : Win) (g : UnF) : ItS → Res St
+  | (i, vi) :: ia => do
+    let s ← (if vi then do s.wr a a.len i (g (← s.rd a a.len i)) else pure s)
+    kUnIter s a g ia
+  | [] => .ok s
+
+/-- generated unary `StdEng.<Op>(a, opts...)` and `StdEng.Clamp` -/
+def engUnary (s : St) (g : UnF) (tc ktypes : List String) (strict : Bool) (a : Dense) (o : Opts) : Res EngOut := do
+  if !tc.contains a.dt then throwErr "typeclass a"
+  let (s, fo) ← handleFuncOpts s a.shape a.dt a.ap.o.col strict o
+  let ksup := ktypes.contains a.dt
+  let useIter := a.requiresIterator || (match fo.reuse with | some r => r.requiresIterator | none => false)
+  let addF : BinF := fun x y => .app2 "add" x y
+  if useIter then
+    let ia ← a.itStream s
+    match fo.incr, fo.reuse with
+    | true, some r =>
+      let (s, c) ← a.clone s
+      if !ksup then return ⟨s, some r, .failed⟩
+      let s ← kUnIter s c.win g ia
+      let s ← eOpIter s r.win c.win addF (← r.itStream s) ia
+      pure ⟨s, some r, .reuse⟩
+    | _, some r =>
+      let ir ← r.itStream s
+      let s ← Dense.copyIterOffsets s r.win a.win (ir.map (·.1)) (ia.map (·.1))
+      if !ksup then return ⟨s, some r, .failed⟩
+      let s ← kUnIter s r.win g ir
+      pure ⟨s, some r, .reuse⟩
+    | _, none =>
+      if !ksup then return ⟨s, none, .failed⟩
+      if !fo.safe then
+        let s ← kUnIter s a.win g ia
+        pure ⟨s, none, .a⟩
+      else
+        let (s, c) ← a.clone s
+        let s ← kUnIter s c.win g ia
+        pure ⟨s, none, .fresh c⟩
+  else
+    match fo.incr, fo.reuse with
+    | true, some r =>
+      let (s, c) ← a.clone s
+      if !ksup then return ⟨s, some r, .failed⟩
+      let s ← kUn s c.win g
+      let s ← eOp s r.win c.win addF
+      pure ⟨s, some r, .reuse⟩
+    | _, some r =>
+      let s ← Dense.rawCopy s r.win a.win
+      if !ksup then return ⟨s, some r, .failed⟩
+      let s ← kUn s r.win g
+      pure ⟨s, some r, .reuse⟩
+    | _, none =>
+      if !ksup then return ⟨s, none, .failed⟩
+      if !fo.safe then
+        let s ← kUn s a.win g
+        pure ⟨s, none, .a⟩
+      else
+        let (s, c) ← a.clone s
+        let s ← kUn s c.win g
+        pure ⟨s, none, .fresh c⟩
+
+/-- `StdEng.Map(fn, a, opts...)` (reached through `Dense.Apply`): the function is applied to the
+    data of the *destination* (`used`), which is the reuse tensor whenever one is given. -/
+def engMap (s : St) (g : UnF) (mapTypes : List String) (a : Dense) (o : Opts) : Res EngOut := do
+  let (s, fo) ← handleFuncOpts s a.shape a.dt a.ap.o.col true o
+  -- create reuse in safe mode
+  let (s, reuse, created) ← (match fo.reuse with
+    | some r =>
+      if totalSize a.shape != totalSize r.shape then throwErr "shapeMismatch" else pure (s, some r, false)
+    | none =>
+      if fo.safe then do
+        -- `a.(View)` always succeeds for *Dense: Materialize when materialisable, else Clone
+        match ← a.materialize s with
+        | (s, some m) => pure (s, some m, true)
+        | (s, none) => let (s, c) ← a.clone s; pure (s, some c, true)
+      else pure (s, none, false) : Res (St × Option Dense × Bool))
+  let useIter := a.requiresIterator || (match reuse with | some r => r.requiresIterator | none => false)
+  let used : Dense := if !fo.safe then a else reuse.getD a
+  if !mapTypes.contains a.dt then throwErr "Cannot map fn" else
+  if fo.incr && a.dt == "b" then throwErr "Cannot perform increment on bool" else
+  let gi : UnF := if fo.incr then (fun x => .app2 "add" x (g x)) else g
+  let s ← (if useIter then do kUnIter s used.win gi (← used.itStream s) else kUn s used.win gi)
+  match reuse with
+  | some r =>
+    -- reuseCheckShape(reuse, a.Shape()): reshape to a's shape, drop a pending transpose / view flag
+    -- lower-case `reshape`: setShape (default strides for the order) + sanity
+    let r' : Dense := { r with ap := { r.ap with shape := a.shape, strides := if a.shape.isEmpty then [] else Dense.defaultStrides r.ap.o.col a.shape, fin := true } }
+    if !r'.view && (r'.win.len : Int) != totalSize a.shape && !a.shape.isEmpty then
+      (if created then pure ⟨s, fo.reuse, .failed⟩ else pure ⟨s, some r', .failed⟩)
+    else
+      let r' := { r' with old := none, tw := none, view := false }
+      if created then pure ⟨s, fo.reuse, .fresh r'⟩ else pure ⟨s, some r', .reuse⟩
+  | none => pure ⟨s, none, .a⟩
+
+end TM
